@@ -1,3 +1,247 @@
-"""placeholder"""
+"""Native replay for C28: the counterexample state (key set with value indices), query and operation are read
+from the verifier's trace; the real occa::trie<int> is built natively by adding the keys in value-index order
+(which reproduces the indices), the same checks are evaluated against a brute-force reference (longest
+stored key that is a prefix of the query = the property's sentence), and a failed check with the same label
+as the failed obligation counts as reproduced.  If the exact counterexample does not reproduce (e.g. it
+depends on a valueless childless node, which the public API cannot always create) the same checks are scanned
+over every key set of the bounded family, natively."""
+import re
+
+from . import replaylib
+
+
+def key_of(kid):
+    k = ''
+    while kid > 0:
+        k = 'ab'[(kid - 1) % 2] + k
+        kid = (kid - 1) // 2
+    return k
+
+
+def last_values(trace):
+    vals = {}
+    for s in trace or []:
+        if s.get('stepType') != 'assignment':
+            continue
+        lhs = s.get('lhs', '')
+        v = (s.get('value') or {}).get('data')
+        if v is None:
+            continue
+        vals[lhs] = v
+    return vals
+
+
+def _int(v, default=0):
+    m = re.match(r'-?\d+', str(v))
+    return int(m.group(0)) if m else default
+
+
+def _char(v):
+    m = re.match(r"'(.)'", str(v))
+    if m:
+        return m.group(1)
+    n = _int(v, 0)
+    return chr(n) if 32 < n < 127 else ''
+
+
+PROG = r'''
+#include <occa/internal/utils/trie.hpp>
+#include <cstdio>
+#include <cstring>
+#include <string>
+#include <vector>
+#include <set>
+typedef occa::trie<int> trie_t;
+static std::set<std::string> fails;
+static std::string ctx_;
+#define CHECK(c, what) do { if (!(c)) { if (fails.insert(what).second) printf("FAILS: %s | %s\n", what, ctx_.c_str()); } } while (0)
+
+struct model { std::vector<std::string> keys; std::vector<int> vals; };   /* index = value index */
+
+static void ref_longest(const model &m, const char *q, int len, int &rlen, int &rval) {
+  rlen = 0; rval = -1;
+  for (size_t i = 0; i < m.keys.size(); ++i) {
+    const std::string &k = m.keys[i];
+    if ((int) k.size() <= len && !strncmp(k.c_str(), q, k.size()) && ((int) k.size() > rlen || rval < 0)) {
+      if ((int) k.size() >= rlen) { rlen = (int) k.size(); rval = (int) i; }
+    }
+  }
+}
+static int ref_exact(const model &m, const std::string &q) {
+  for (size_t i = 0; i < m.keys.size(); ++i) if (m.keys[i] == q) return (int) i;
+  return -1;
+}
+static void build(trie_t &t, const model &m) {
+  t.autoFreeze = false;
+  for (size_t i = 0; i < m.keys.size(); ++i) t.add(m.keys[i].c_str(), m.vals[i]);
+}
+static std::string show(const model &m) {
+  std::string s = "keys(in index order)={";
+  for (size_t i = 0; i < m.keys.size(); ++i) s += (i ? "," : "") + ("\"" + m.keys[i] + "\"");
+  return s + "}";
+}
+
+static void lookups(const model &m, const std::string &q) {
+  const int len = (int) q.size();
+  std::string buf = q + "ab";                    /* query as a prefix of a longer buffer */
+  ctx_ = show(m) + " query=\"" + q + "\"";
+  int rlen, rval; ref_longest(m, q.c_str(), len, rlen, rval);
+  const int ex = ref_exact(m, q);
+  trie_t t; build(t, m);
+  occa::trieNode::result_t r = t.root.get(q.c_str(), len);
+  CHECK(r.success() == (rval >= 0), "trieNode::get succeeds iff some stored key is a prefix of the query");
+  if (rval >= 0) {
+    CHECK(r.valueIndex == rval, "trieNode::get returns the value index of the longest stored prefix");
+    CHECK(r.length == rlen, "trieNode::get returns the length of the longest stored prefix");
+  }
+  CHECK(t.root.getValueIndex(q.c_str()) == ex, "trieNode::getValueIndex is the value index of exactly the query key, else -1");
+  trie_t::result_t p = t.trieGetLongest(buf.c_str(), len);
+  CHECK(p.success() == (rval >= 0), "trieGetLongest(c, length) succeeds iff a stored key is a prefix of the first length characters");
+  CHECK(p.valueIndex == rval, "trieGetLongest(c, length) value index ignores characters after length");
+  CHECK(p.length == rlen, "trieGetLongest(c, length) length ignores characters after length");
+  for (int frozen = 0; frozen < 2; ++frozen) {
+    if (frozen) t.freeze();
+    const std::string F = frozen ? "frozen" : "unfrozen";
+    trie_t::result_t u = t.getLongest(q.c_str(), len);
+    CHECK(u.success() == (rval >= 0), (F + " getLongest succeeds iff some stored key is a prefix of the query").c_str());
+    CHECK(u.valueIndex == rval, (F + " getLongest returns the value index of the longest stored prefix").c_str());
+    CHECK(u.length == rlen, (F + " getLongest returns the length of the longest stored prefix").c_str());
+    CHECK(u.value() == (rval >= 0 ? m.vals[rval] : t.defaultValue), (F + " getLongest value() is the value stored for that key, else the default").c_str());
+    trie_t::result_t g = t.get(q.c_str(), len), g2 = t.get(q.c_str());
+    CHECK(g.success() == (ex >= 0), (F + " get(c, length) succeeds exactly for stored keys").c_str());
+    CHECK(g.valueIndex == ex, (F + " get(c, length) returns the stored key's value index, else -1").c_str());
+    CHECK(g2.valueIndex == ex, (F + " get(c) returns the stored key's value index, else -1").c_str());
+    CHECK(g.value() == (ex >= 0 ? m.vals[ex] : t.defaultValue), (F + " get value() is the key's value, else the default").c_str());
+    if (len > 0) CHECK(t.has(q.c_str()) == (ex >= 0), (F + " has(c) is true exactly for stored keys").c_str());
+    else CHECK(t.has(q.c_str()) == (ex >= 0), (F + " has(\"\") is true only if the empty key is stored").c_str());
+    if (len > 0) CHECK(t.has(q.c_str(), len) == (ex >= 0), (F + " has(c, size) is true exactly for stored keys").c_str());
+    CHECK(t.size() == (int) m.keys.size(), (F + " size() counts the stored keys").c_str());
+  }
+  t.freeze();
+  trie_t::result_t f2 = t.getLongest(q.c_str(), len);
+  CHECK(f2.length == rlen && f2.valueIndex == rval, "getLongest after freezing twice is still the longest stored prefix");
+  t.defrost();
+  trie_t::result_t d = t.getLongest(q.c_str(), len);
+  CHECK(d.length == rlen && d.valueIndex == rval, "getLongest after freeze and defrost is still the longest stored prefix");
+}
+
+/* one operation on the state, then every key of the family is looked up and compared with the model */
+static void step(const model &m0, bool is_add, const std::string &key, int v, int depth) {
+  model m = m0;
+  trie_t t; build(t, m);
+  ctx_ = show(m0) + (is_add ? " add(\"" : " remove(\"") + key + "\")";
+  int ex = ref_exact(m, key);
+  if (is_add) {
+    t.add(key.c_str(), v);
+    if (ex >= 0) m.vals[ex] = v; else { m.keys.push_back(key); m.vals.push_back(v); }
+  } else {
+    t.remove(key.c_str());
+    if (ex >= 0) { m.keys.erase(m.keys.begin() + ex); m.vals.erase(m.vals.begin() + ex); }
+  }
+  const char *A = is_add ? "after add: the stored keys are the old ones plus the added key" : "after remove: the stored keys are the old ones minus the removed key";
+  const char *B = is_add ? "after add: every key has its most recently added value" : "after remove: every remaining key keeps its value";
+  std::vector<std::string> all(1, "");
+  for (size_t i = 0; i < all.size(); ++i) if ((int) all[i].size() < depth) { all.push_back(all[i] + "a"); all.push_back(all[i] + "b"); }
+  for (size_t i = 1; i < all.size(); ++i) {
+    int e = ref_exact(m, all[i]);
+    trie_t::result_t g = t.get(all[i].c_str());
+    CHECK(g.success() == (e >= 0), A);
+    if (e >= 0 && g.success()) CHECK(g.value() == m.vals[e], B);
+  }
+  CHECK((int) t.values.size() == (int) m.keys.size(), "step: values.size() stays the number of stored keys (INV)");
+}
+
+int main(int argc, char **argv) {
+  int depth = @DEPTH@;
+  /* 1. the verifier's counterexample (a key ending in z stands for a node the counterexample has without a
+     value: it makes the real trie contain that node) */
+  {
+    model m; @MODEL@
+    @ACTION@
+  }
+  if (!fails.empty()) { printf("REPRODUCED on the counterexample\n"); return 1; }
+  /* 2. the bounded family at depth 3 (first 4096 key sets): keys over {a,b} (index order = enumeration
+     order and its reverse), every query over {a,b,c} up to depth+1 */
+  depth = 3;
+  std::vector<std::string> all(1, "");
+  for (size_t i = 0; i < all.size(); ++i) if ((int) all[i].size() < depth) { all.push_back(all[i] + "a"); all.push_back(all[i] + "b"); }
+  std::vector<std::string> qs(1, "");
+  for (size_t i = 0; i < qs.size(); ++i) if ((int) qs[i].size() < depth + 1) { qs.push_back(qs[i] + "a"); qs.push_back(qs[i] + "b"); qs.push_back(qs[i] + "c"); }
+  const int nk = (int) all.size() - 1;
+  const long lim = (nk <= 6) ? (1l << nk) : 4096;
+  for (long s = 0; s < lim; ++s) {
+    for (int rev = 0; rev < 2; ++rev) {
+      model m;
+      for (int j = 0; j < nk; ++j) { int jj = rev ? nk - 1 - j : j; if ((s >> jj) & 1) { m.keys.push_back(all[1 + jj]); m.vals.push_back(100 + jj); } }
+      if (@SCAN_STEP@) {
+        for (int j = 0; j < nk; ++j) { step(m, true, all[1 + j], 7, depth); step(m, false, all[1 + j], 0, depth); }
+      } else {
+        for (size_t k = 0; k < qs.size(); ++k) lookups(m, qs[k]);
+      }
+    }
+  }
+  printf(fails.empty() ? "not reproduced\n" : "REPRODUCED by scanning the bounded family\n");
+  return fails.empty() ? 0 : 1;
+}
+'''
+
+
 def replay_state(ctx, g, o, inputs):
-    return {'reproduced': False}
+    vals = last_values(o.trace)
+    nodes = {}
+    for lhs, v in vals.items():
+        m = re.match(r'value\[(\d+)l?\]$', lhs)
+        if m:
+            nodes[int(m.group(1))] = _int(v, -1)
+    nn = (max(nodes) + 1) if nodes else 7
+    depth = {3: 1, 7: 2, 15: 3}.get(nn, 2)
+    data = {}
+    for lhs, v in vals.items():
+        m = re.match(r'T\.values\.data_\[(\d+)l?\]$', lhs)
+        if m:
+            data[int(m.group(1))] = _int(v, 0)
+    present = {}
+    for lhs, v in vals.items():
+        m = re.match(r'present\[(\d+)l?\]$', lhs)
+        if m:
+            present[int(m.group(1))] = str(v).upper() in ('TRUE', '1')
+    stored = sorted((vi, kid) for kid, vi in nodes.items() if vi >= 0 and kid > 0)
+
+    def has_valued_below(kid):
+        kids = [2 * kid + 1, 2 * kid + 2]
+        return any(nodes.get(k, -1) >= 0 or has_valued_below(k) for k in kids if k < nn)
+    # a node that exists without a value and without stored keys below it (remove() leaves such nodes) is
+    # recreated natively by a key <path>z: its extra character is outside the query alphabet
+    dangling = [kid for kid in sorted(present) if kid > 0 and present[kid] and nodes.get(kid, -1) < 0
+                and not has_valued_below(kid)]
+    # value indices are dense under INV; keys are added in index order
+    model = ' '.join('m.keys.push_back("%s"); m.vals.push_back(%d);' % (key_of(kid), 100 + i)
+                     for i, (vi, kid) in enumerate(stored))
+    model += ' ' + ' '.join('m.keys.push_back("%sz"); m.vals.push_back(%d);' % (key_of(kid), 900 + kid) for kid in dangling)
+    empty_key = nodes.get(0, -1) >= 0
+    q = ''
+    qlen = _int(vals.get('qlen', 0), 0)
+    for i in range(qlen):
+        q += _char(vals.get('q[%dl]' % i, vals.get('q[%d]' % i, ''))) or 'c'
+    is_step = 'step_' in g.name
+    if is_step:
+        klen = _int(vals.get('klen', 0), 0)
+        key = ''.join(_char(vals.get('key[%dl]' % i, '')) or 'a' for i in range(klen))
+        action = 'step(m, %s, "%s", 7, depth);' % ('true' if 'add' in g.name else 'false', key)
+        what = {'keys_in_value_index_order': [key_of(k) for _, k in stored] + [key_of(k) + 'z' for k in dangling], 'operation': ('add ' if 'add' in g.name else 'remove ') + key}
+    else:
+        action = 'lookups(m, "%s");' % q
+        what = {'keys_in_value_index_order': [key_of(k) for _, k in stored] + [key_of(k) + 'z' for k in dangling], 'query': q}
+    if empty_key:
+        what['note'] = 'the counterexample stores the empty key; it is added first natively'
+        model = 'm.keys.push_back(""); m.vals.push_back(99); ' + model
+    prog = (PROG.replace('@DEPTH@', str(depth)).replace('@MODEL@', model).replace('@ACTION@', action)
+            .replace('@SCAN_STEP@', '1' if is_step else '0'))
+    rc, out, src = replaylib.compile_run(ctx, 'replay_trie', prog, timeout=300)
+    p = replaylib.keep_replay_source(ctx, g, prog)
+    fails = re.findall(r'FAILS: (.*?) \| (.*)', out)
+    labels = [f for f, _ in fails]
+    hit = [(f, c) for f, c in fails if f in o.desc or o.desc in f]
+    return {'reproduced': bool(hit), 'failing_checks': labels[:12],
+            'witness': hit[0][1] if hit else (fails[0][1] if fails else None),
+            'input_from_trace': what, 'program': p, 'output': out[-800:]}
